@@ -365,7 +365,7 @@ fn run(ctx: &Ctx, out: &mut Out) {
 fn leg_shapes(ctx: &Ctx, out: &mut Out) {
     let leg = "shapes";
     let alpha = [Sym::Unit, Sym::InjL, Sym::Pair];
-    let nmax = ctx.tier.pick(6, 7);
+    let nmax = ctx.tier.pick(6, 8);
     let class_max = ctx.tier.pick(5, 6);
     for n in 1..=nmax {
         let parts: Vec<Vec<usize>> = if n <= class_max { partitions(n) } else { vec![] };
@@ -423,7 +423,7 @@ fn leg_real(ctx: &Ctx, out: &mut Out) {
     let leg = "real";
     let fam = Fam::Core;
     let alpha = vec![Sym::Iden, Sym::Unit, Sym::Witness, Sym::Word(0, 1), Sym::InjL, Sym::InjR, Sym::Take, Sym::Drop, Sym::Comp, Sym::Case, Sym::Pair];
-    let nmax = ctx.tier.pick(4, 5);
+    let nmax = ctx.tier.pick(4, 6);
     for n in 1..=nmax {
         let mut dags: Vec<Dag> = vec![];
         enum_dags(n, &alpha, 3, &mut || ctx.mine(), &mut |d| dags.push(d.to_vec()));
@@ -520,7 +520,7 @@ fn leg_handles(ctx: &Ctx, out: &mut Out) {
     let leg = "handles";
     let fam = Fam::Core;
     let alpha = vec![Sym::Iden, Sym::Unit, Sym::Witness, Sym::InjL, Sym::Take, Sym::Drop, Sym::Comp, Sym::Case, Sym::Pair, Sym::Disc1, Sym::Disc2];
-    let nmax = ctx.tier.pick(4, 5);
+    let nmax = ctx.tier.pick(4, 6);
     for n in 1..=nmax {
         let mut dags: Vec<Dag> = vec![];
         enum_dags(n, &alpha, 3, &mut || ctx.mine(), &mut |d| dags.push(d.to_vec()));
